@@ -1,14 +1,23 @@
 #!/bin/bash
 # tools/seed_run.sh <seed-id> <check-id> [extra args for bin/check]
-# Applies /verif/seeded/<seed-id>/patch.diff to /repo, runs the check, and undoes the change.
+# Runs a check against a seeded change.  The change is applied in a scratch worktree of /repo
+# (VERIF_REPO points the engine at it) so /repo itself is never modified; evidence and
+# counterexamples of the run go to a scratch VERIF_ROOT copy so that /verif/evidence only ever
+# holds clean-tree runs.
 SEED="$1"; CHECK="$2"; shift 2
-cd /repo || exit 2
-if [ -n "$(git status --porcelain)" ]; then echo "/repo is not clean"; exit 2; fi
-git apply "/verif/seeded/$SEED/patch.diff" || { echo "patch does not apply"; exit 2; }
-cd /verif && ./bin/check "$CHECK" "$@" > "/tmp/seedrun-$SEED-$CHECK.log" 2>&1
+WT=/tmp/seedrun-wt-$SEED-$CHECK
+rm -rf "$WT"; git -C /repo worktree prune
+git -C /repo worktree add --detach "$WT" HEAD >/dev/null 2>&1 || { echo "cannot create worktree"; exit 2; }
+( cd "$WT" && git apply "/verif/seeded/$SEED/patch.diff" ) || { echo "SEEDRUN seed=$SEED check=$CHECK: patch does not apply to /repo HEAD"; git -C /repo worktree remove --force "$WT"; exit 2; }
+ROOT=/tmp/seedrun-root-$SEED-$CHECK
+rm -rf "$ROOT"; mkdir -p "$ROOT"
+for d in api harness checks bin known_findings.jsonl regex; do [ -e /verif/$d ] && ln -s /verif/$d "$ROOT/$d"; done
+export GOFLAGS=-mod=mod GOPROXY=off GOSUMDB=off GOTOOLCHAIN=local
+VERIF_REPO="$WT" VERIF_ROOT="$ROOT" timeout ${SEED_TIMEOUT:-1800} /verif/bin/gosmt check "$CHECK" "$@" > "/tmp/seedrun-$SEED-$CHECK.log" 2>&1
 rc=$?
-git -C /repo checkout -- . 
+git -C /repo worktree remove --force "$WT" >/dev/null 2>&1; rm -rf "$WT"
 echo "SEEDRUN seed=$SEED check=$CHECK rc=$rc"
-grep -E "^(VIOLATION|KNOWN-FINDING|SPURIOUS|\[C[0-9]+\] RESULT)" "/tmp/seedrun-$SEED-$CHECK.log" | head -8
-grep -A1 "^VIOLATION" "/tmp/seedrun-$SEED-$CHECK.log" | grep "^  " | head -4
+grep -E "^(VIOLATION|KNOWN-FINDING|SPURIOUS|\[C[0-9]+\] RESULT)" "/tmp/seedrun-$SEED-$CHECK.log" | head -6
+grep -A1 "^VIOLATION" "/tmp/seedrun-$SEED-$CHECK.log" | grep "^  " | cut -c1-260 | head -4
+rm -rf "$ROOT"
 exit $rc
